@@ -1,5 +1,5 @@
 CHECKS = [
-    entry("C03", "collector",
+    entry("C03", "collector", crashcap=True,
           technique="property-based testing (rapid): generated arrival/tick schedules under virtual time (testing/synctest) vs a reference deadline/tick model",
           quick=dict(checks=500, budget_s=70),
           thorough=dict(checks=8000, shards=16, budget_s=540),
